@@ -276,7 +276,8 @@ fn end_to_end(seed: u64, shard: u64, n: u64) -> Tally {
     for i in 0..n {
         let mut r = Rng::keyed(seed, "C09", "e2e", shard, i);
         let mut cfg = gen_cfg(&mut r);
-        cfg.fold = false;
+        // both modes, each also together with the form-folding option (the path rules must not depend on it)
+        cfg.fold = r.chance(1, 3);
         cfg.s3 = r.coin();
         let o = GenOpts {
             max_pairs: 1,
